@@ -31,6 +31,32 @@ CHECKS = {
    "Every enumerated input is parsed by both entry points under every listed extension subset; when both have output the metadata maps must be equal.",
    "Nothing is assumed about inputs where one of the two parses has no output (the property excludes them).",
    "DESIGN.md 5/C14"),
+
+ "C09": ("exploration",
+   "exhaustive enumeration of a finite product: every ordered pair and triple of same-quantity units x value grid (incl. every best-unit threshold) x target systems, checked against an independent SI definition table and internal agreement laws on the real converter",
+   "The unit set of the bundled converter is finite (38 units); every ordered pair and triple, every unit x value x value-shape x {convert(Metric), convert(Imperial), fit, SameSystem}, a complete failure matrix and ScaledRecipe::convert on all small recipes over 12 atoms are executed. Values are a grid chosen from the code's thresholds, not all doubles.",
+   "Independent table of SI definitions (NIST / US customary) written in the harness; tolerance 1e-6 against the definitions (units.toml is rounded to 9 decimals), 1e-9 for internal agreement. Real-valued domain covered on a grid only.",
+   "DESIGN.md 5/C09"),
+ "C11": ("exploration",
+   "bounded-exhaustive enumeration of all strings up to n symbols over the aisle-format alphabet plus all single edits of realistic files; totality, span, conservation, duplicate, round-trip and lookup oracles plus an independent reference parser",
+   "All strings of up to 7 (thorough 8) symbols over a 12-symbol alphabet of the aisle format (names, separators, brackets, comments, CRLF, tab, NBSP, a 2-byte letter) are parsed by the real aisle::parse; every result is checked against the invariants of the property and, for ASCII-whitespace inputs, against a reference parser written from the format description.",
+   "Which of several errors is reported first is not checked. 'Randomly beyond' is outside the technique.",
+   "DESIGN.md 5/C11"),
+ "C12": ("exploration",
+   "exhaustive grid: every cell of the 10^4-cell lookup table x offsets x whole parts x accuracies x all max denominators 1..=64 x whole limits, predicate of the property evaluated on every call of the real Number::new_approx",
+   "The approximation quantises the fractional part to 10^4 cells; the grid visits every cell at several offsets, crossed with 14 whole parts around the u32 limits, 8 accuracies, all 64 denominators and 6 limits (2.1e9 calls quick), plus non-positive, non-finite and extreme inputs.",
+   "Exactness is demanded within 8 ulp; nearest-ness of the chosen fraction is not demanded (the property does not state it). Continuous domain covered on a grid that hits every table cell.",
+   "DESIGN.md 5/C12"),
+ "C13": ("exploration",
+   "exhaustive enumeration of the product documented forms x boundary values x every time-unit key x keys x spellings x converters against an independent exact computation, plus a bounded-exhaustive coherence sweep (warning <=> accessor returns nothing) over all metadata-alphabet strings up to n symbols",
+   "Every documented duration / servings / tags / name-url / locale form is instantiated with boundary values around 60, 1440 and the u32 range, with every name, symbol and alias of every time unit of three converters (bundled, empty, bundled + units/spanish.toml), in `>>`, quoted and numeric front-matter spelling; expected totals are computed exactly in u128. A second sweep checks for every short string over a 38-symbol metadata alphabet under 9 standard keys that a parse-time warning appears exactly when the accessor returns nothing.",
+   "Unsupported-value warnings are recognised differentially (one more warning than the same text under a non-standard key), never by message text. Key aliases (duration, serves) and untrimmed YAML list entries are not generated because the documentation leaves them open. Exact .5-minute ties may round either way.",
+   "DESIGN.md 5/C13"),
+ "C16": ("model_checking",
+   "depth-bounded exhaustive enumeration of layer sequences from a menu of units-file layers; each sequence is built on the real ConverterBuilder (twice, from freshly parsed TOML) and compared with a reference layering model (explicit-state: states = sequences, transitions = add one layer)",
+   "All sequences of up to 3 (thorough 4) layers out of a menu of 39 on top of a base file are replayed on the real builder; the model predicts for each sequence whether it must be rejected and otherwise the exact units (key lists after before/after/override layering and SI re-expansion), best lists and default system; the built converter must agree and satisfy the index invariants; no build may panic. The default converter is compared with one built from units.toml.",
+   "Fraction settings are only checked through behaviour (fit/convert on a grid) because the configuration is not publicly observable. Acceptance that depends on hash-map iteration order is counted, not flagged.",
+   "DESIGN.md 5/C16"),
 }
 
 PENDING = {
